@@ -109,12 +109,19 @@ PROPS["C04"] = {
 }
 
 PROPS["C20"] = {
-    "modules": ["harness.c20"], "level": "model_checking", "design_ref": "DESIGN.md 2/C20",
+    "modules": ["harness.c20"], "runner": "vf.c20:run", "engine": "crosshair + z3 (storebmc)",
+    "technique": "lock balance: bounded symbolic execution of the real store methods with a counting lock (CrossHair+z3); interleavings: store methods "
+                 "translated statement by statement from their AST into a transition system and bounded-model-checked with z3 over all schedules, "
+                 "sat schedules replayed with real threads under a line scheduler", "level": "model_checking", "design_ref": "DESIGN.md 2/C20",
     "level_text": "(a) The real store methods of both flavours run with the lock replaced by a counting lock; every sequence of 2 (thorough: 3) store "
                   "operations with symbolic graph ids / graph variants / NodeID truthiness must leave the lock free and released exactly once per call, on "
-                  "return and on raise. (b) see level_note.",
-    "level_note": XH_NOTE + " Only exceptions the real code raises for inputs of the documented types are considered (no fault injection).",
-    "explanation": "lock balance on every path", "assumptions": ["single-thread lock model: double release raises, re-acquire while held is reported as would-block"],
+                  "return and on raise. (b) storebmc: add_graph / add_graph_direct / del_graph / del_all_graphs / add_blank_node_to_graph of both stores are translated from "
+                  "their AST into guarded steps over (lock, id counters, allocated ids); z3 searches all schedules of 2 threads x 1-2 operations (thorough: 3 x 2) "
+                  "for a duplicate or misplaced internal id or a held lock.",
+    "level_note": XH_NOTE + " Only exceptions the real code raises for inputs of the documented types are considered (no fault injection). "
+                  "(b) assumes one source statement is one atomic step and that imports go to graph ids not yet present; statements that touch store state "
+                  "but match no translation pattern are CANNOT-ENCODE (exit 2).",
+    "explanation": "lock balance on every path + bounded model checking of id allocation under interleavings", "assumptions": ["single-thread lock model: double release raises, re-acquire while held is reported as would-block"],
 }
 
 PROPS["C19"] = {
